@@ -100,6 +100,10 @@ func (r *resolver) module(y *Module) error {
 				if err != nil {
 					return fmt.Errorf("%s - %s", i.moduleName, err)
 				}
+				// modules are remembered under the name they declare: one that answers to
+				// another name is remembered under the name it was asked for as well, or
+				// it would be loaded again for every import of it
+				r.loadedModules[i.moduleName] = i.module
 				// recurse
 				if err = r.module(i.module); err != nil {
 					return err
